@@ -16,7 +16,7 @@ Prologues == {"ok", "short", "bad", "banner"}
 \* well-framed requests
 \* (get_padded / get_smuggle: a Get whose frame is longer than its CBOR item - zero filler, resp. a complete Delete frame as
 \*  filler; a frame is consumed to its declared length, so both are plain Gets and the filler is never a request)
-Requests == {"hello", "list", "get", "get_padded", "get_smuggle", "get_badpath", "put_new", "put_cas_c1", "put_badhash", "put_badpath", "put_dir_badhash", "delete_c2", "delete_badpath"}
+Requests == {"hello", "list", "get", "get_padded", "get_smuggle", "get_badpath", "put_new", "put_cas_c1", "put_badhash", "put_badpath", "put_dir_badhash", "put_under_file", "delete_c2", "delete_badpath"}
 \* pieces that are not a well-framed request
 Breakers == {"oversize_2p20p1", "oversize_u32max", "undecodable", "unknown_variant", "zero_len", "deep_nesting", "huge_inner_len",
              "eof_in_prefix", "eof_in_body", "put_content_eof", "put_len_beyond_eof", "bye"}
@@ -52,6 +52,9 @@ Frame == /\ st = "AwaitFrame"
                         IF f = "c1" THEN f' = "c2" /\ Rep(<<"Put", "committed", "c2">>) /\ UNCHANGED <<st, exit, conf>>
                         ELSE conf' = "c2" /\ Rep(<<"Put", "conflict", f>>) /\ UNCHANGED <<st, exit, f>>
                    [] x \in {"put_badhash", "put_dir_badhash"} -> Rep("Error:content hash mismatch") /\ UNCHANGED <<st, exit, f, conf>>   \* also when the destination is an existing directory and the content bytes look like frames
+                   [] x = "put_under_file" ->   \* Put(docs/keep/x): a leading component is a FILE on the hub, so no staging file can be made -
+                                                \* that request fails, its content is drained, the session goes on
+                        Rep("Error:cannot stage") /\ UNCHANGED <<st, exit, f, conf>>
                    [] x = "delete_c2" ->
                         IF f = "c2" THEN f' = "none" /\ Rep(<<"Delete", "deleted", "none">>) /\ UNCHANGED <<st, exit, conf>>
                         ELSE Rep(<<"Delete", "refused", f>>) /\ UNCHANGED <<st, exit, f, conf>>
